@@ -1,2 +1,152 @@
--- line-protocol driver for C01 (stub; replaced when the property is built)
-def main : IO Unit := IO.println "stub"
+import Verif.Model.Token
+/-!
+  Line-protocol driver for C01 (token authorization).
+
+  `key=value` fields separated by single spaces; a string is `x<hex>`; lists are joined by `,`
+  (`-` = empty); `!` = absent.
+
+  auth op=<sign|sshsign|sshrenew|sshrekey|revoke|sshrevoke> now=<ns> ssh=0|1 noiat=0|1 start=<s>
+       hosts=<xname:v6:parses:xnorm:xstripped,…>
+       provs=<ty:xname:xkid:xclient:xissuer:xidEsc:init:sshEnabled:disableRenewal:renewAfterExpiry,…>
+       parsed=0|1 kid= iss= sub= aud=<xraw:xstripped,…> exp=<s|!> nbf= iat= azp= tid= email= lbt=0|1
+       frag= fragesc= hasssh=0|1 sshtype=0|1 pop=<!|after:before:host:user:serialIsSub> cr=<7 bits,…>
+     -> ok[:x<provisioner name>] | reject | crash
+  aud hosts=<…> frag=<!|xescaped>
+     -> the seven rendered lists (`xraw|xstripped` items, lists joined by `;`)
+  handler name=<Go function name>
+     -> the control-flow paths recorded in the model's table (events joined by `,`, paths by `;`)
+-/
+open Verif Verif.Token
+
+namespace C01
+
+def str? (t : String) : Option Str :=
+  if t.startsWith "x" then unhex (t.drop 1).toString else none
+
+def bool? (t : String) : Option Bool :=
+  if t = "1" then some true else if t = "0" then some false else none
+
+def list? {α : Type} (f : String → Option α) (t : String) : Option (List α) :=
+  if t = "-" then some [] else (t.splitOn ",").mapM f
+
+def optInt? (t : String) : Option (Option Int) :=
+  if t = "!" then some none else t.toInt?.map some
+
+def lookup (kv : List (String × String)) (k : String) : Option String :=
+  (kv.find? (·.1 = k)).map (·.2)
+
+def op? : String → Option Op
+  | "sign" => some .sign | "sshsign" => some .sshSign | "sshrenew" => some .sshRenew
+  | "sshrekey" => some .sshRekey | "revoke" => some .revoke | "sshrevoke" => some .sshRevoke
+  | _ => none
+
+def ty? : String → Option PType
+  | "jwk" => some .jwk | "x5c" => some .x5c | "sshpop" => some .sshpop | "oidc" => some .oidc
+  | "k8ssa" => some .k8ssa | "nebula" => some .nebula | "acme" => some .acme | "scep" => some .scep
+  | _ => none
+
+def host? (t : String) : Option Host :=
+  match t.splitOn ":" with
+  | [a, b, c, d, e] => do pure ⟨(← str? a), (← bool? b), (← bool? c), (← str? d), (← str? e)⟩
+  | _ => none
+
+def prov? (t : String) : Option Prov :=
+  match t.splitOn ":" with
+  | [ty, n, k, c, i, e, ini, ssh, dr, rae] => do
+    pure { ty := (← ty? ty), name := (← str? n), kid := (← str? k), clientId := (← str? c),
+           oidcIssuer := (← str? i), nameEsc := (← str? e), init := (← bool? ini),
+           sshEnabled := (← bool? ssh), disableRenewal := (← bool? dr), renewAfterExpiry := (← bool? rae) }
+  | _ => none
+
+def taud? (t : String) : Option TAud :=
+  match t.splitOn ":" with
+  | [a, b] => do pure ⟨(← str? a), (← str? b)⟩
+  | _ => none
+
+def cr? (t : String) : Option Cr :=
+  match t.toList.map (· == '1') with
+  | [a, b, c, d, e, f, g] => some ⟨a, b, c, d, e, f, g⟩
+  | _ => none
+
+def pop? (t : String) : Option (Option Pop) :=
+  if t = "!" then some none else
+  match t.splitOn ":" with
+  | [a, b, h, u, sr] => do pure (some ⟨(← a.toNat?), (← b.toNat?), (← bool? h), (← bool? u), (← bool? sr)⟩)
+  | _ => none
+
+def kvs (line : String) : List (String × String) :=
+  (fields line).filterMap fun f =>
+    match f.splitOn "=" with
+    | [k, v] => some (k, v)
+    | _ => none
+
+def named (op : Op) : Bool :=
+  match op with
+  | .sign | .sshSign | .sshRekey => true
+  | _ => false
+
+def evalAuth (kv : List (String × String)) : Option String := do
+  let op ← op? (← lookup kv "op")
+  let now ← (← lookup kv "now").toInt?
+  let cfg : Config := {
+    hosts := (← list? host? (← lookup kv "hosts"))
+    provs := (← list? prov? (← lookup kv "provs"))
+    sshCA := (← bool? (← lookup kv "ssh"))
+    disableIat := (← bool? (← lookup kv "noiat"))
+    startTime := (← (← lookup kv "start").toInt?) }
+  let tok : Tok := {
+    parsed := (← bool? (← lookup kv "parsed"))
+    kid := (← str? (← lookup kv "kid"))
+    iss := (← str? (← lookup kv "iss"))
+    sub := (← str? (← lookup kv "sub"))
+    aud := (← list? taud? (← lookup kv "aud"))
+    exp := (← optInt? (← lookup kv "exp"))
+    nbf := (← optInt? (← lookup kv "nbf"))
+    iat := (← optInt? (← lookup kv "iat"))
+    azp := (← str? (← lookup kv "azp"))
+    tid := (← str? (← lookup kv "tid"))
+    email := (← str? (← lookup kv "email"))
+    lbtOk := (← bool? (← lookup kv "lbt"))
+    fragment := (← str? (← lookup kv "frag"))
+    fragEsc := (← str? (← lookup kv "fragesc"))
+    hasSSH := (← bool? (← lookup kv "hasssh"))
+    sshTypeOk := (← bool? (← lookup kv "sshtype"))
+    pop := (← pop? (← lookup kv "pop"))
+    cr := (← list? cr? (← lookup kv "cr")) }
+  match authorize cfg now op tok with
+  | .ok i =>
+    if named op then
+      match cfg.provs[i]? with
+      | some p => pure ("ok:x" ++ hex p.name)
+      | none => pure "ok:?"
+    else pure "ok"
+  | .reject _ => pure "reject"
+  | .crash => pure "crash"
+
+def showList (l : List (Str × Str)) : String :=
+  ",".intercalate (l.map fun a => "x" ++ hex a.1 ++ "|x" ++ hex a.2)
+
+def evalAud (kv : List (String × String)) : Option String := do
+  let hosts ← list? host? (← lookup kv "hosts")
+  let f ← lookup kv "frag"
+  let frag ← if f = "!" then some none else (str? f).map some
+  let a := getAudiences hosts
+  let r := fun (l : List Aud) => showList (l.map (Aud.render frag))
+  pure (";".intercalate [r a.sign, r a.renew, r a.revoke, r a.sshSign, r a.sshRevoke, r a.sshRenew, r a.sshRekey])
+
+def evalHandler (kv : List (String × String)) : Option String := do
+  let n ← lookup kv "name"
+  match handlerPaths.find? (·.1 = n) with
+  | some (_, ps) => pure (";".intercalate (ps.map fun p => ",".intercalate p))
+  | none => pure "unknown-handler"
+
+def eval (line : String) : Option String :=
+  match fields line with
+  | "auth" :: _ => evalAuth (kvs line)
+  | "aud" :: _ => evalAud (kvs line)
+  | "handler" :: _ => evalHandler (kvs line)
+  | _ => none
+
+end C01
+
+def main : IO Unit := Verif.lineLoop fun l => (C01.eval l).getD "parse-error"
